@@ -74,6 +74,23 @@ def wfExpListG (scope : List String) : List BExp → Bool
   | a :: as => wfExpG scope a && wfExpListG scope as
 end
 
+mutual
+/-- the expression mentions a constant -/
+def hasConst : BExp → Bool
+  | .tt => true
+  | .ff => true
+  | .sym _ => false
+  | .not a => hasConst a
+  | .and l => hasConstList l
+  | .or l => hasConstList l
+  | .xor l => hasConstList l
+  | .ite c t e => hasConst c || hasConst t || hasConst e
+  | .imp a b => hasConst a || hasConst b
+def hasConstList : List BExp → Bool
+  | [] => false
+  | a :: as => hasConst a || hasConstList as
+end
+
 /-- `r = Not(r)`: `compile_not` negates the qubit of `r` in place (step 0 of `compile_not`) -/
 def selfNot (r : String) : BExp → Bool
   | .not (.sym n) => n == r
